@@ -103,6 +103,8 @@ def generate(seed, tier):
             ops.append(["resched", W.gen_world(rf, world, rw.choice([2, 5, 12]))])
         elif r < 0.60:
             ops.append(["other"])
+        elif r < 0.63:
+            ops.append(["refill", rw.randrange(2 ** 31), rw.choice(["noise", "randwalk", "sine+noise"])])
         elif r < 0.80 and nres:
             ops.append(["attr", rw.randrange(nres), rw.choice(ATTRS)])
         elif r < 0.90 and nres:
@@ -216,8 +218,9 @@ def execute(sc, out):
             return baselines[key]
 
         # ---------------- the history on ONE analyzer ------------------------------------------------
+        buf = data.copy()        # the caller's buffer of the history (may be aliased by analyzers; refilled in place by "refill")
         with clock.installed():
-            an = SC.build_analyzer(data.copy(), cfg)
+            an = SC.build_analyzer(buf, cfg)
             other = None
         results = []          # (kind, result, expected_raw, expected_vals)
         observed = {}         # (ri, name) -> first observed snapshot
@@ -307,9 +310,32 @@ def execute(sc, out):
                             thread_cfgs.add((op[1].get("threads"), op[1].get("chunksize")))
                             out.count("threads_changed")
                         out.count("resched")
+                    elif kind == "refill":
+                        # the caller overwrites the SAME buffer in place and starts over with a new analyzer on it;
+                        # everything computed from now on must be that of a fresh analysis of the new content
+                        spec2 = dict(sc["data"], rng=op[1], recipe=op[2])
+                        newrec = SC.make_record(spec2)
+                        buf[...] = newrec
+                        data = newrec.copy()
+                        xmax = float(np.max(np.abs(data))) if data.size else 0.0
+                        try:
+                            an0, base = fresh_compute()
+                        except Exception:
+                            break
+                        base_raw = SS.raw_fields(base)
+                        base_vals = _all_values(base, ATTRS)
+                        base_plan = SS.snapshot_plan(an0.plan())
+                        nf = len(base.f)
+                        key0 = knob_key()
+                        baselines.clear()
+                        baselines[key0] = (base_raw, base_vals)
+                        plan_snap = None
+                        an = SC.build_analyzer(buf, cfg)
+                        other = None
+                        out.count("buffer_refilled_in_place")
                     elif kind == "other":
                         if other is None:
-                            other = SC.build_analyzer(data.copy(), sc["other"])
+                            other = SC.build_analyzer(buf, sc["other"])
                         try:
                             other.compute()
                             out.count("other_analyzer_compute")
